@@ -15,12 +15,14 @@ Ltac Zify.zify_post_hook ::= Z.div_mod_to_equations.
 Definition name_entry (p : path) (d : decl) : list N :=
   [1] ++ tok_path (p ++ [d_seg d]) ++ [aml_pOpName] ++ const_tokens (d_op d) (const_val (d_op d) (d_v d)).
 Definition dev_entry (p : path) : list N := [1] ++ tok_path p ++ [aml_pOpDevice].
+Definition meth_entry (p : path) (fl : N) : list N := [1] ++ tok_path p ++ [aml_pOpMethod] ++ tok_const OP_BYTE fl.
 
 (** the view lists the body of a Device before the Device *)
 Fixpoint ventry (p : path) (it : item) : list (list N) :=
   match it with
   | IName d => [name_entry p d]
   | IDev _ seg body => flat_map (ventry (p ++ [seg])) body ++ [dev_entry (p ++ [seg])]
+  | IMeth _ seg fl body => flat_map (ventry (p ++ [seg])) body ++ [meth_entry (p ++ [seg]) fl]
   end.
 Definition ventries (p : path) (l : list item) : list (list N) := flat_map (ventry p) l.
 
@@ -29,13 +31,17 @@ Fixpoint sentry (p : path) (it : item) : list (list N) :=
   match it with
   | IName d => [name_entry p d]
   | IDev _ seg body => dev_entry (p ++ [seg]) :: flat_map (sentry (p ++ [seg])) body
+  | IMeth _ seg fl body => meth_entry (p ++ [seg]) fl :: flat_map (sentry (p ++ [seg])) body
   end.
 Definition sentries (p : path) (l : list item) : list (list N) := flat_map (sentry p) l.
 
 Lemma ventries_perm : forall l p, Permutation (ventries p l) (sentries p l).
 Proof.
-  induction l as [|d rest IH|k seg body rest IHb IH] using items_ind; intros p; [constructor| |].
+  induction l as [|d rest IH|k seg body rest IHb IH|k seg fl body rest IHb IH] using items_ind; intros p; [constructor| | |].
   - cbn [ventries sentries flat_map ventry sentry]. apply Permutation_app_head. apply IH.
+  - cbn [ventries sentries flat_map ventry sentry]. apply Permutation_app; [|apply IH].
+    fold (ventries (p ++ [seg]) body). fold (sentries (p ++ [seg]) body).
+    eapply Permutation_trans; [apply Permutation_app_comm|]. cbn [app]. constructor. apply IHb.
   - cbn [ventries sentries flat_map ventry sentry]. apply Permutation_app; [|apply IH].
     fold (ventries (p ++ [seg]) body). fold (sentries (p ++ [seg]) body).
     eapply Permutation_trans; [apply Permutation_app_comm|]. cbn [app]. constructor. apply IHb.
@@ -54,6 +60,28 @@ Proof.
   rewrite Hk. cbn [fold_left]. rewrite Hko, Hopk. change (aml_pOpIntScopeBlock =? aml_pOpIntScopeBlock) with true. cbv iota.
   rewrite Hw. change (aml_pOpDevice =? aml_pOpMethod) with false. cbv iota.
   cbn [anon map app]. rewrite !app_nil_r. unfold dev_entry. reflexivity.
+Qed.
+
+(** ---- a Method node ---- *)
+Lemma walkF_meth (t : T) tables f known p es stmts c co pth byt kb sb ko es' :
+  obj t c = Some co -> o_opcode co = aml_pOpMethod -> View.kids t co = [pth; byt; sb] ->
+  obj t byt = Some kb -> o_opcode kb = aml_pOpBytePrefix -> View.kids t kb = [] ->
+  match o_value kb with Some (VNum _) => True | _ => False end ->
+  obj t sb = Some ko -> o_opcode ko = aml_pOpIntScopeBlock ->
+  walk t tables f known sb (p ++ [name_num (o_name co)]) = (es', []) ->
+  walkF t tables f known p (es, stmts) c =
+  (es ++ es' ++ [[1] ++ tok_path (p ++ [name_num (o_name co)]) ++ [aml_pOpMethod] ++ const_tokens aml_pOpBytePrefix (o_value kb)], stmts).
+Proof.
+  intros Ho Hop Hk Hkb Hopb Hkkb Hvb Hko Hopk Hw. unfold walkF. rewrite Ho. cbv zeta. rewrite Hop.
+  change ((aml_pOpMethod =? aml_pOpIntScopeBlock) && negb (is_zero_scopeblock co)) with false. cbv iota.
+  change (aml_pOpMethod =? aml_pOpIntNamedField) with false. change (is_declop aml_pOpMethod) with true. cbv iota.
+  rewrite Hk. cbn [fold_left]. rewrite Hkb, Hopb. change (aml_pOpBytePrefix =? aml_pOpIntScopeBlock) with false. cbv iota.
+  rewrite Hko, Hopk. change (aml_pOpIntScopeBlock =? aml_pOpIntScopeBlock) with true. cbv iota.
+  rewrite Hw. change (aml_pOpMethod =? aml_pOpMethod) with true. cbv iota.
+  unfold pool_fuel.
+  rewrite (render_const t tables _ known _ byt kb Hkb Hkkb); rewrite ?Hopb; try reflexivity.
+  2:{ destruct (o_value kb) as [[x|tb sl|i|fe]|]; try contradiction; exact I. }
+  cbn [concat app]. rewrite !app_nil_r. reflexivity.
 Qed.
 
 Section ViewF1.
@@ -86,7 +114,7 @@ Qed.
 
 Lemma vspec_all : forall its, VSpec its.
 Proof.
-  induction its as [|d rest IH|k seg body rest IHb IH] using items_ind; intros f known p es st b off HD Hok Hf.
+  induction its as [|d rest IH|k seg body rest IHb IH|k seg fl body rest IHb IH] using items_ind; intros f known p es st b off HD Hok Hf.
   - cbn [lay2 map fold_left ventries flat_map]. rewrite app_nil_r. reflexivity.
   - apply forallb_item_cons in Hok. destruct Hok as [Hd Hok]. cbn [item_okb] in Hd. apply andb_prop in Hd. destruct Hd as [Hd Hseg].
     apply N.ltb_lt in Hseg. unfold decl_okb in Hd. apply andb_prop in Hd. destruct Hd as [Hd _]. apply andb_prop in Hd. destruct Hd as [_ Hc].
@@ -123,6 +151,26 @@ Proof.
                ltac:(rewrite (pay_op _ _ Epko); reflexivity) Hw).
     rewrite (IH (S f') known p _ st _ _ HDrest Hok ltac:(lia)).
     cbn [ventries flat_map ventry]. fold (ventries (p ++ [seg]) body). rewrite Hnm, <- !app_assoc. reflexivity.
+  - apply forallb_item_cons in Hok. destruct Hok as [Hd Hok]. cbn [item_okb] in Hd. apply andb_prop in Hd. destruct Hd as [Hx Hbody].
+    apply andb_prop in Hx. destruct Hx as [Hx _]. apply andb_prop in Hx. destruct Hx as [Hx _]. apply andb_prop in Hx. destruct Hx as [_ Hseg]. apply N.ltb_lt in Hseg.
+    rewrite lay2_cons in HD |- *. rewrite map_app, fold_left_app. apply Forall_app in HD. destruct HD as [HDit HDrest].
+    rewrite lay2_meth in HDit |- *. cbn [map ridx fold_left].
+    pose proof (Forall_inv HDit) as DD. destruct (Desc_inv _ _ _ _ _ DD) as (PD & KD & HDk). cbn [map ridx] in KD.
+    pose proof (Forall_inv (Forall_inv_tail HDk)) as DB. destruct (Desc_inv _ _ _ _ _ DB) as (PB & KB & _). cbn [map] in KB.
+    pose proof (Forall_inv (Forall_inv_tail (Forall_inv_tail HDk))) as DS. destruct (Desc_inv _ _ _ _ _ DS) as (PS & KS & HDbody).
+    destruct (view_obj t g pl b _ H PD ltac:(discriminate)) as (co & Hco & Epco & Hkco).
+    destruct (view_obj t g pl (b + 2) _ H PB ltac:(discriminate)) as (kb & Hkb & Epkb & Hkkb).
+    destruct (view_obj t g pl (b + 3) _ H PS ltac:(discriminate)) as (ko & Hko & Epko & Hkko).
+    rewrite KD in Hkco. rewrite KB in Hkkb. rewrite KS in Hkko.
+    rewrite iszs_cons, isz_meth in Hf. destruct f as [|f']; [lia|].
+    assert (Hnm : name_num (o_name co) = seg) by (rewrite (pay_name _ _ Epco); cbn [mth_pay y_name]; apply name_num_seg; exact Hseg).
+    assert (Hw : walk t tables (S f') known (b + 3) (p ++ [name_num (o_name co)]) = (ventries (p ++ [seg]) body, [])).
+    { rewrite walk_S, Hko, Hkko, Hnm. rewrite (IHb f' known (p ++ [seg]) [] [] _ _ HDbody Hbody ltac:(lia)). reflexivity. }
+    assert (Hvb : o_value kb = Some (VNum fl)) by (rewrite (pay_val _ _ Epkb); reflexivity).
+    rewrite (walkF_meth t tables (S f') known p es st b co (b + 1) (b + 2) kb (b + 3) ko _ Hco ltac:(rewrite (pay_op _ _ Epco); reflexivity) Hkco Hkb
+               ltac:(rewrite (pay_op _ _ Epkb); reflexivity) Hkkb ltac:(rewrite Hvb; exact I) Hko ltac:(rewrite (pay_op _ _ Epko); reflexivity) Hw).
+    rewrite (IH (S f') known p _ st _ _ HDrest Hok ltac:(lia)).
+    cbn [ventries flat_map ventry]. fold (ventries (p ++ [seg]) body). rewrite Hnm, Hvb, <- !app_assoc. reflexivity.
 Qed.
 
 (** ---- the whole view ---- *)
